@@ -49,7 +49,8 @@ def rand_format(rng):
     return {"cnames": cn, "args": args, "opts": opts}
 
 
-def rand_recipe(rng, f):
+def rand_recipe(rng, f, shape=None):
+    """shape: None | "allpos" (every argument slot filled) | "reqlast" (only the required ones, the last item a positional)"""
     rc = []
     names_given = 0
     for k, c in enumerate(f["cnames"]):
@@ -61,6 +62,10 @@ def rand_recipe(rng, f):
             break
     nreq = sum(1 for a in f["args"] if a["req"])
     npos = rng.randint(nreq, len(f["args"])) if f["args"] else 0
+    if shape == "allpos":
+        npos = len(f["args"])
+    elif shape == "reqlast":
+        npos = nreq
     pos = []
     for k in range(npos):
         a = f["args"][k]
@@ -103,6 +108,10 @@ def rand_recipe(rng, f):
     if head and opt_items and rng.random() < 0.3:
         it = body.pop([i for i, x in enumerate(body) if x["k"] in ("opt", "grp")][0])
         head.insert(rng.randint(0, len(head)), it)
+    if shape == "reqlast" and pos:
+        body = [it for it in body if it["k"] != "sep"]
+        last = max(i for i, it in enumerate(body) if it["k"] == "pos")
+        body.append(body.pop(last))
     return head + body
 
 
